@@ -20,6 +20,7 @@ Suffix(n) == SubSeq(n, L - 5, L)
 
 SealEv(e) ==
   /\ e.nonce \in Nonces
+  /\ e.fresh            \* the first counter of a key does not continue a counter used under another key (harness: distance >= 2^24)
   /\ IF Known(e) # {}
      THEN LET r == CHOOSE x \in Known(e) : TRUE IN
           /\ Less(r.nonce, e.nonce)                 \* strictly increasing: no nonce twice under this key at this end
